@@ -57,6 +57,9 @@
 //     order and with which arguments" is part of the translated meaning; calls
 //     listed under "pure" are opaque values that are not traced; a call to a
 //     translated function that itself has opaque parameters is opaque too;
+//   - `defer func() { … }()` (a closure without parameters) is run inline at
+//     every exit reached after it, after the named results have been set, and
+//     may change them (errors.WithDeferred(err, e) is "err if non-nil, else e");
 //   - with "trace", a deferred call is appended to the trace at every exit
 //     reached after the defer statement (arguments as evaluated at the defer);
 //   - calls listed under "ignore" (mutex operations, logging, metrics) are
@@ -415,7 +418,8 @@ type fctx struct {
 	localFns    map[string]*ast.FuncLit
 	loop        *loopCtx
 	opaqueVals  map[string]string
-	defers      []string
+	defers      []deferred
+	onEnd       func() string
 	opaqueNodes map[ast.Expr]string
 	opaqueCalls map[*ast.CallExpr]string
 }
@@ -999,6 +1003,10 @@ func (c *fctx) call(x *ast.CallExpr) ex {
 			xs = append(xs, c.exprAs(a, types.Universe.Lookup("error").Type()))
 		}
 		return c.bindN(xs, func(s []string) string { return "(firstErr [" + strings.Join(s, ", ") + "])" })
+	case key == "github.com/AdguardTeam/golibs/errors.WithDeferred" && len(x.Args) == 2:
+		et := types.Universe.Lookup("error").Type()
+		xs := []ex{c.exprAs(x.Args[0], et), c.exprAs(x.Args[1], et)}
+		return c.bindN(xs, func(s []string) string { return "(firstErr [" + s[0] + ", " + s[1] + "])" })
 	case key == "github.com/AdguardTeam/golibs/errors.Join" || key == "errors.Join":
 		if len(x.Args) == 1 && x.Ellipsis.IsValid() {
 			a := c.expr(x.Args[0])
@@ -1069,7 +1077,7 @@ func (c *fctx) call(x *ast.CallExpr) ex {
 		return r
 	}
 	// errors made by any other call: opaque non-nil error value labelled by source text
-	if isError(c.typeOf(x)) && !c.trace {
+	if isError(c.typeOf(x)) {
 		if tup, ok := c.typeOf(x).(*types.Tuple); !ok || tup.Len() == 1 {
 			switch c.show(x.Fun) {
 			case "fmt.Errorf", "errors.New", "errors.Error", "newNotPositiveError", "newNegativeError", "newMustBeUniqueError":
@@ -1123,7 +1131,7 @@ func (c *fctx) traceArg(a ast.Expr) (code string) {
 		return code
 	}
 	lt := c.t.leanType(tv.Type)
-	if lt != "Int" && lt != "Bool" && lt != "String" {
+	if lt != "Int" && lt != "Bool" && lt != "String" && lt != "(Option String)" {
 		return code
 	}
 	// Do not let a nested opaque call allocate parameters from here (values
@@ -1162,6 +1170,10 @@ func (c *fctx) traceArg(a ast.Expr) (code string) {
 	ok2 = true
 	if lt == "String" {
 		return e.code
+	}
+	if lt == "(Option String)" {
+		// an error argument: only whether it is nil
+		return "(if (" + e.code + ").isSome then \"err\" else \"nil\")"
 	}
 	return "(toString " + e.code + ")"
 }
@@ -1251,34 +1263,84 @@ func indent(s string) string {
 	return strings.Join(lines, "\n")
 }
 
+// deferred is one entry of the defer stack: a traced call (the variable holding
+// its trace entry) or a closure whose body is run inline at every exit.
+type deferred struct {
+	traceVar string
+	body     []ast.Stmt
+}
+
 func (c *fctx) ret(vals []string) string {
-	var parts []string
-	if c.recvMut {
-		parts = append(parts, leanIdent(c.recv))
-	}
-	parts = append(parts, vals...)
-	if c.trace {
-		parts = append(parts, "tr")
-	}
-	var r string
-	switch len(parts) {
-	case 0:
-		r = "()"
-	case 1:
-		r = parts[0]
-	default:
-		r = "(" + strings.Join(parts, ", ") + ")"
-	}
 	pre := ""
-	if c.trace {
-		for i := len(c.defers) - 1; i >= 0; i-- {
-			pre += "let tr := tr ++ " + c.defers[i] + "\n"
+	hasClosure := false
+	for _, d := range c.defers {
+		if d.body != nil {
+			hasClosure = true
 		}
 	}
-	if c.loop != nil {
-		return pre + "«step»(.ret " + r + ")"
+	if hasClosure && c.named {
+		// the deferred closures see (and may change) the named results
+		var tmps []string
+		for _, v := range vals {
+			t := c.tmp("r")
+			tmps = append(tmps, t)
+			pre += fmt.Sprintf("let %s := %s\n", t, v)
+		}
+		for i, r := range c.results {
+			pre += fmt.Sprintf("let %s := %s\n", leanIdent(r.Name()), tmps[i])
+			vals[i] = leanIdent(r.Name())
+		}
 	}
-	return pre + "«ret»" + r
+	loop := c.loop
+	final := func() string {
+		var parts []string
+		if c.recvMut {
+			parts = append(parts, leanIdent(c.recv))
+		}
+		parts = append(parts, vals...)
+		if c.trace {
+			parts = append(parts, "tr")
+		}
+		var r string
+		switch len(parts) {
+		case 0:
+			r = "()"
+		case 1:
+			r = parts[0]
+		default:
+			r = "(" + strings.Join(parts, ", ") + ")"
+		}
+		if loop != nil {
+			return "«step»(.ret " + r + ")"
+		}
+		return "«ret»" + r
+	}
+	return pre + c.runDefers(len(c.defers)-1, final)
+}
+
+func (c *fctx) runDefers(i int, final func() string) string {
+	if i < 0 {
+		return final()
+	}
+	d := c.defers[i]
+	if d.body == nil {
+		if !c.trace {
+			return c.runDefers(i-1, final)
+		}
+		return "let tr := tr ++ " + d.traceVar + "\n" + c.runDefers(i-1, final)
+	}
+	prevEnd, prevLoop, prevDefers := c.onEnd, c.loop, c.defers
+	var self func() string
+	self = func() string {
+		c.onEnd, c.loop, c.defers = prevEnd, prevLoop, prevDefers
+		out := c.runDefers(i-1, final)
+		c.onEnd, c.loop, c.defers = self, nil, nil
+		return out
+	}
+	c.onEnd, c.loop, c.defers = self, nil, nil
+	code := c.stmts(d.body)
+	c.onEnd, c.loop, c.defers = prevEnd, prevLoop, prevDefers
+	return code
 }
 
 // loopCtx is the innermost enclosing range loop: its carried variables.
@@ -1411,6 +1473,9 @@ func (c *fctx) rangeLoop(x *ast.RangeStmt, rest []ast.Stmt) string {
 }
 
 func (c *fctx) stmts(list []ast.Stmt) string {
+	if len(list) == 0 && c.loop == nil && c.onEnd != nil {
+		return c.onEnd()
+	}
 	if len(list) == 0 && c.loop != nil {
 		return "«step»(.next " + c.stateTuple(c.loop.state) + ")"
 	}
@@ -1428,6 +1493,9 @@ func (c *fctx) stmts(list []ast.Stmt) string {
 	s, rest := list[0], list[1:]
 	switch x := s.(type) {
 	case *ast.ReturnStmt:
+		if len(x.Results) == 0 && c.onEnd != nil && c.loop == nil {
+			return c.onEnd()
+		}
 		if len(x.Results) == 0 {
 			var vals []string
 			for _, r := range c.results {
@@ -1548,11 +1616,19 @@ func (c *fctx) stmts(list []ast.Stmt) string {
 				}
 			}
 		}
+		if fl, ok := x.Call.Fun.(*ast.FuncLit); ok && len(x.Call.Args) == 0 && fl.Type.Params.NumFields() == 0 {
+			// a deferred closure: its body runs at every exit reached from
+			// here and may read and change the named results
+			c.defers = append(c.defers, deferred{body: fl.Body.List})
+			out := c.stmts(rest)
+			c.defers = c.defers[:len(c.defers)-1]
+			return out
+		}
 		if c.trace {
 			// the deferred call runs at every exit reached from here; its
 			// arguments are evaluated now
 			d := c.tmp("deferred")
-			c.defers = append(c.defers, d)
+			c.defers = append(c.defers, deferred{traceVar: d})
 			out := fmt.Sprintf("let %s : List (String × List String) := [%s]\n", d, c.traceEntry(x.Call)) + c.stmts(rest)
 			c.defers = c.defers[:len(c.defers)-1]
 			return out
